@@ -117,7 +117,7 @@ def make_prov(model: Model, cg: CallGraph, path_sanitizers: bool = True) -> Prov
 
 
 def _confinement_guard(f: FuncInfo, call: ast.Call) -> Optional[str]:
-    """A test dominating the sink that compares realpath/abspath of the candidate with the directory
+    """A test dominating the sink that compares the realpath of the candidate with the realpath of the directory
     (startswith(dir + os.sep) or commonpath) and leaves on failure."""
     g = build_cfg(f.node, exc_edges=False)
     target = None
@@ -147,7 +147,12 @@ def _confinement_guard(f: FuncInfo, call: ast.Call) -> Optional[str]:
             # the compared values must be realpath()s: look at the definitions of the names used
             names = {x.id for x in ast.walk(n.ast) if isinstance(x, ast.Name)}
             srcs = " ".join(unparse(a.value) for a in walk_no_nested(f.node) if isinstance(a, ast.Assign) and any(isinstance(tg, ast.Name) and tg.id in names for tg in a.targets))
-            if "realpath" in t or "realpath" in srcs or "abspath" in srcs or "commonpath" in t:
+            # both sides must be symlink-resolved: abspath/normpath are lexical, and `link/../x` passes a lexical prefix test while
+            # the operating system resolves `link` first and leaves the directory
+            defs = [a.value for a in walk_no_nested(f.node) if isinstance(a, ast.Assign) and any(isinstance(tg, ast.Name) and tg.id in names for tg in a.targets)]
+            resolved = [d for d in defs if "realpath(" in unparse(d) or ".resolve(" in unparse(d)]
+            inline = t.count("realpath(") + t.count(".resolve(")
+            if len(resolved) + inline >= 2 and not any(("abspath(" in unparse(d) or "normpath(" in unparse(d)) and "realpath(" not in unparse(d) for d in defs):
                 return t
     return None
 
@@ -222,7 +227,13 @@ def run(model: Model, rep: Report) -> None:
     r2.ok(site(lt), lt.qualname, "positive control: LTImage.name originates from the Do operand", note=f"{sum(1 for l in ctl if l.tag == 'DOC')} document origins found", nontrivial=False)
 
     # ---------------------------------------------------------------- R3
-    r3 = rep.rule("C15-R3", "ORDER", "no overwrite: every write-mode open uses the name produced by the unique-name loop", 7)
+    unique_name_rule(model, rep, "C15-R3")
+
+
+def unique_name_rule(model: Model, rep: Report, rid: str) -> None:
+    """Image export never opens an existing file for writing (shared by C15-R3 and C18-R5)."""
+    sites = fs_sites(model)
+    r3 = rep.rule(rid, "ORDER", "no overwrite: every write-mode open uses the name produced by the unique-name loop", 7)
     un = model.func("pdfminer.image.ImageWriter._create_unique_image_name")
     loops = [n for n in walk_no_nested(un.node) if isinstance(n, ast.While)]
     okl = len(loops) == 1 and unparse(loops[0].test).replace(" ", "") == "os.path.exists(path)"
